@@ -43,7 +43,7 @@ def run(ctx):
     ctx.extra["limit_shapes"] = summ2["vectors"]
     # (b') the dictionary-stack limit also holds inside an eexec section entered at the limit (plaintext 14)
     from checks import c05
-    c05.eexec_layouts(ctx, ctx.tier == "quick", only=(14,), how_prefix="limits inside eexec: ")
+    c05.eexec_layouts(ctx, ctx.tier == "quick", only=(14, "eexec[budget]"), how_prefix="limits and budget inside eexec: ", count=True)
     # (c) the %! start check
     import os
     d = ctx.specdir()
